@@ -355,10 +355,12 @@ class HistWorld(World):
             op["to"] = ["", "A", "B"][int(rng.integers(3))]
         elif name in ("get_results", "set_iter"):
             op["i"] = int(rng.integers(n))
+            op["idx"] = ["int", "int", "numpy", "negative"][int(rng.integers(4))]
             if name == "set_iter" and self.type == "PhaseField":
                 op["resetAll"] = bool(rng.integers(2))
         elif name == "result_iter":
             op["i"] = int(rng.integers(n))
+            op["idx"] = ["int", "int", "numpy", "negative"][int(rng.integers(4))]
             rs = RESULTS_AT_SAVE[self.type]
             op["name"] = rs[int(rng.integers(len(rs)))]
         elif name == "setmesh":
@@ -450,12 +452,14 @@ class HistWorld(World):
         if name == "set_iter":
             if op["i"] >= len(self.snaps):
                 return "skip"
+            self._idx_kind = op.get("idx", "int")
             return self._with_disk_fault(fault, lambda: self._act_set_iter(op["i"], op.get("resetAll", False)), lambda: self._ver_set_iter(op["i"], op.get("resetAll", False)))
 
         if name == "result_iter":
             if op["i"] >= len(self.snaps) or op["name"] not in RESULTS_AT_SAVE[self.type]:
                 return "skip"
             self._tmp = {}
+            self._idx_kind = op.get("idx", "int")
             return self._with_disk_fault(fault, lambda: self._act_result_iter(op["i"], op["name"]), lambda: self._ver_result_iter(op["i"], op["name"]))
 
         if name == "setmesh":
@@ -623,6 +627,17 @@ class HistWorld(World):
         self._check_all_entries("after Save_Iter")
         return "ok"
 
+    def _index(self, i, kind):
+        """The same iteration addressed the ways user code does: a Python int, a numpy integer (np.arange, np.argmax),
+        a negative index counted from the end."""
+        if kind == "numpy":
+            self.ctx.probe("iteration_addressed_by_numpy_integer")
+            return np.int64(i)
+        if kind == "negative":
+            self.ctx.probe("iteration_addressed_from_the_end")
+            return int(i) - len(self.snaps)
+        return int(i)
+
     def _act_get_results(self, i):
         self._tmp["before"] = self._live_digest_nodisk()
         self._tmp["d"] = self._check_entry(i, "get_results")
@@ -646,9 +661,9 @@ class HistWorld(World):
         try:
             with self.ctx.sut():
                 if resetAll:
-                    sim.Set_Iter(i, resetAll=True)
+                    sim.Set_Iter(self._index(i, getattr(self, "_idx_kind", "int")), resetAll=True)
                 else:
-                    sim.Set_Iter(i)
+                    sim.Set_Iter(self._index(i, getattr(self, "_idx_kind", "int")))
         except SutError as e:
             raise Violation("set-iter-raises", f"Set_Iter({i}) raised {e} [saved under {snap['algo']['algo']}, restored under {self.algo['algo']}, folder now '{self.folder}']", e.site)
 
@@ -669,7 +684,7 @@ class HistWorld(World):
         sim = self.sim
         try:
             with self.ctx.sut():
-                self._tmp["got"] = _result(sim, name, iter=i)
+                self._tmp["got"] = _result(sim, name, iter=self._index(i, getattr(self, "_idx_kind", "int")))
         except SutError as e:
             raise Violation("result-iter-raises", f"Result('{name}', iter={i}) raised {e}", e.site)
 
